@@ -407,6 +407,22 @@ func TestVerif(t *testing.T) {
 				k, d = checkRoutes(rp.Host, rp.Routes)
 			case "subst":
 				k, d = checkSubst(rp.Tpl, rp.Groups)
+			case "subst10":
+				runSubst10Part(r) // cheap: the whole part runs again and reports again
+				return
+			case "entry":
+				var ec entryCase
+				_ = r.ReplayInto(&ec)
+				g, err := newEntryRig()
+				if err != nil {
+					r.NotExhaustive("entry part: " + err.Error())
+					return
+				}
+				defer g.stop()
+				if k, d = g.run(ec); k != "" {
+					r.Violation(k, d, ec)
+				}
+				return
 			}
 			if k != "" {
 				r.Violation(k, d, rp)
@@ -565,5 +581,9 @@ func TestVerif(t *testing.T) {
 			r.Eval(evals)
 			r.ClassN("subst:cases", evals)
 		}
+
+		// ---- part 4: two-digit parameters; part 5: the real entry points and what they dial
+		runSubst10Part(r)
+		runEntryPart(r)
 	})
 }
